@@ -274,7 +274,8 @@ pub fn scan(src: &str) -> Scan {
     for (ev, range) in Parser::new_ext(src, options()).into_offset_iter() {
         if in_meta {
             match ev {
-                Event::Text(t) => out.meta = Some(t.to_string()),
+                // the block may arrive in several text events (one per line with CRLF line endings)
+                Event::Text(t) => out.meta = Some(format!("{}{}", out.meta.clone().unwrap_or_default(), t)),
                 Event::End(TagEnd::MetadataBlock(_)) => in_meta = false,
                 _ => {}
             }
